@@ -83,6 +83,27 @@ def coq_build(clean=False, pid=None):
     with Lock("coq"):
         # regenerated on every run: the file list is _CoqProject's, whatever the time stamps say
         run(["coq_makefile", "-f", "_CoqProject", "-o", "Makefile"], cwd=COQ)
+        # ... and so are the dependencies (coqdep, about a second): a source file put in place with an old time stamp would
+        # otherwise be compiled against stale ones
+        for dep in (".Makefile.d",):
+            try:
+                os.remove(os.path.join(COQ, dep))
+            except OSError:
+                pass
+        # make decides by time stamps; the sources are compared by content: a file whose text differs from the one last
+        # compiled is touched, so that no .vo can outlive its source
+        hpath = os.path.join(COQ, ".vhashes.json")
+        try:
+            seen = json.load(open(hpath))
+        except Exception:
+            seen = {}
+        now = {}
+        for f in sorted(glob.glob(os.path.join(COQ, "**", "*.v"), recursive=True)):
+            rel = os.path.relpath(f, COQ)
+            now[rel] = hashlib.sha256(open(f, "rb").read()).hexdigest()
+            if seen.get(rel) != now[rel] and not clean:
+                os.utime(f, None)
+        json.dump(now, open(hpath, "w"))
         if clean:
             run(["make", "clean"], cwd=COQ, timeout=300)
         r = run(["timeout", "3000", "make", "-k", "-j16"], cwd=COQ, timeout=3100)
